@@ -8,6 +8,7 @@ a statement about the list.  The capacity and fill level are arbitrary: the full
 replace-only path (`insert_ii_for_full`, behind `checked_insert`) is included.
 -/
 import Micromap.Proofs.Inv
+import Micromap.Props.C11
 
 namespace Micromap.Props.C12
 open Micromap Micromap.Refine
@@ -105,6 +106,16 @@ theorem remove_entry_exposes_stored (hE : E.Pure) {s : St K V Q} {l : List (K ×
       subst this; subst hoj
       exact ⟨hj, s', hm, hrep, hw⟩
   · exact (no_inj hb hi').elim
+
+/-- the entry API with a key equal to a stored one: `entry(k)` discards the supplied key object
+    (`drop(k)` is its only effect) and leaves the container — hence the stored key — untouched;
+    `or_insert` then returns the slot of the stored entry. -/
+theorem entry_keeps_stored_key (hE : E.Pure) {s : St K V Q} {l : List (K × V)} (hr : Rep s.r l)
+    (hb : Benign s.w) (k : K) (d : V) {i} (hf : findKey E l (.key k) = some i) :
+    (∃ s', entry E k s = .ok (.occ i) s' ∧ s'.r = s.r ∧ WRel s.w s'.w [.dropK k]) ∧
+    (∃ s', (entry E k >>= or_insert E d) s = .ok i s' ∧ s'.r = s.r ∧
+      WRel s.w s'.w (.dropK k :: dropVTr E d)) :=
+  ⟨C11.entry_occupied E hE hr hb k hf, C11.entry_or_insert_occupied E hE hr hb k d hf⟩
 
 /-- iteration (`iter`, `keys`, `Set::iter`, `Debug`, …) reads the stored objects: the entries of
     a container represented by `l` are exactly `l`. -/
